@@ -465,7 +465,8 @@ func hashChainOK(P *Prog, h *Term, content string) bool {
 	if tab == nil || dig == nil || tab.Signature.Results().Len() != 1 || tab.Signature.Results().At(0).Type().String() != "crypto.Hash" {
 		return false
 	}
-	for _, x := range P.factsOf(dig).exits {
+	// (the write-and-sum tail may live in a helper of its own)
+	for _, x := range P.deepExits(dig, func(h *ssa.Function) bool { return h.Signature.Recv() == nil }) {
 		if x.kind == exitFailure {
 			continue
 		}
